@@ -10,6 +10,7 @@ That each Go package behaves like `stepWith` over its own tables is the correspo
 two real packages against each other in lockstep (every register, flag, cycle count and memory write compared).
 -/
 import SnesVerif.Cpu.Impl
+import SnesVerif.Gen.CpuDiff
 open Cpu Gen
 set_option maxRecDepth 100000
 namespace C02
@@ -51,6 +52,19 @@ theorem observables_agree (n : Nat) (s : St) :
     (run .primary n s).map (fun r => (r.2.r, r.2.m.wlog)) = (run .alt n s).map (fun r => (r.2.r, r.2.m.wlog)) ∧
     ∀ a, (run .primary n s).map (fun r => r.2.m.f a) = (run .alt n s).map (fun r => r.2.m.f a) := by
   rw [run_agree]; exact ⟨rfl, fun _ => rfl⟩
+
+/-- the functions in which the two packages are allowed to differ textually: construction, the bus helpers (closure
+tables vs interface-backed segments), `Step`'s dispatch syntax, the disassemblers, STP/WAI naming.  These are compared
+by the lockstep run only. -/
+def bodyExceptions : List String := [
+  "AttachReader", "AttachWriter", "Disassemble", "DisassembleCurrentPC", "DisassemblePreviousPC", "DisassembleTo", "EaRead", "EaWrite", "Init", "InitFrom", "New", "Read16", "Read24", "Read8", "Step", "Write16", "Write24", "Write8", "appendCPUFlags", "cmdRead16", "cmdWrite16", "createTable", "eaRead16_cross", "eaWrite16_cross", "formatInstructionAncillaryTo", "formatInstructionMode", "formatInstructionModeTo", "nRead", "nRead16_cross", "nRead16_wrap", "nRead24_wrap", "nWrite", "nWrite16_cross", "nWrite16_wrap", "nmi", "op_stp", "op_wai", "printCPUFlags", "stp", "wai"]
+
+/-- (0) regenerated fact: every other function of the two packages — all `op_*` routines, the 8-bit operand accessors,
+flag and register-size helpers — has the same body after normalising the receiver syntax -/
+theorem routine_bodies_agree : ∀ fn ∈ cpuFns, fn.same = true ∨ fn.name ∈ bodyExceptions := by decide
+
+/-- … and there are more than a hundred of them (the fact is not vacuous) -/
+theorem routine_bodies_counted : 100 ≤ (cpuFns.filter (·.same)).length := by decide
 
 /-- non-vacuity: the tables are the 256-entry tables of the packages, and decode to something -/
 example : primary_instructions.size = 256 ∧ alt_instructions.size = 256 ∧
